@@ -16,7 +16,7 @@ BUILDS = {'quick': [('k160', 'stone5'), ('b248', 'stone5')],
 RULE = ('honest instances from the Lean spec builder: heights 0..8 (quick) / 0..12 (thorough), n_verifier_friendly 0..h+2 and huge, '
         'query shapes single/adjacent/all/sparse/dense; each followed by its single-site corruptions: every queried value (+1), '
         'an index moved to a neighbour, every consumed sibling (+1), root (+1), last sibling missing, one extra trailing node, '
-        'duplicate index, unsorted indices, index out of range, empty query list. distinct = distinct case lines; non-trivial = height >= 1.')
+        'duplicate index, unsorted indices, index out of range, empty query list, height / last index raised by 2^32, 2^64, 2^128. distinct = distinct case lines; non-trivial = height >= 1.')
 ASSUMPTIONS = ['Keccak-256/Blake2s-256/Poseidon are modelled (executable Lean), compared with the real crates on every case',
                'a hash collision among the random test values is treated as impossible by the oracle']
 TRUSTED = ['Python oracle: honest/extra-trailing => Ok; value/sibling/root corrupted, sibling missing, index moved to a different leaf => not Ok']
@@ -94,6 +94,9 @@ def cases(rng, tier, feats, drv_ok):
             add('unsorted', 'any', idx=Q[::-1], v=vals[::-1])
             add('duplicate-index', 'any', idx=[Q[0]] + Q[:-1], v=[vals[0]] + vals[:-1])
         add('empty-queries', 'reject', idx=[], v=[])
+        for w in (32, 64, 128):   # heights / indices congruent to the honest ones modulo a machine word
+            add(f'height+2^{w}', 'reject', hh=h + (1 << w))
+            add(f'index+2^{w}', 'any', idx=Q[:-1] + [Q[-1] + (1 << w)])
     # adversarial field-sized heights / indices: no panic, model agreement only
     for _ in range(20):
         out.append({'line': line(rng.felt(), rng.edge_felt(), rng.edge_felt(), [rng.edge_felt()], [rng.felt()], [rng.felt() for _ in range(rng.below(4))]),
